@@ -394,7 +394,8 @@ def run_query(ctx, q, cache, lock):
             r['status'] = 'inconclusive'
             r['reason'] = 'unwinding bound too small: ' + '; '.join(x['id'] for x in unw[:4])
             return r
-        if (not wit and not q.nowitness) or unreached:
+        if ((not wit and not q.nowitness) or unreached) and not fails:
+            # (a failed assertion takes precedence over an unreached witness: a defect may well make a witness unreachable)
             r['status'] = 'inconclusive'
             r['reason'] = 'vacuity guard: witness not reached: ' + '; '.join(x['msg'] for x in unreached[:4]) if wit else 'harness has no REACH witness'
             return r
